@@ -101,9 +101,11 @@ def main(pid, level, fn, argv=None):
     except runner.BrokenCheck as e:
         print("BROKEN property=%s %s" % (pid, e))
         sys.exit(3)
-    except Exception:
+    except Exception as e:
         traceback.print_exc()
-        print("BROKEN property=%s internal error in the checker" % pid)
+        tb = traceback.extract_tb(e.__traceback__)
+        where = "%s:%d" % (os.path.basename(tb[-1].filename), tb[-1].lineno) if tb else "?"
+        print("BROKEN property=%s internal error in the checker (%s: %s at %s)" % (pid, type(e).__name__, str(e)[:160].replace("\n", " "), where))
         sys.exit(3)
     known = [k for k in load_known() if k.get("property") == pid]
     open_keys = {k["key"]: k for k in known if k.get("status", "open") == "open"}
